@@ -61,9 +61,7 @@ theorem planet_elongation_range (ep l0 b : ℝ) (v : ℝ × ℝ × ℝ) (ra dec 
       rw [← h.2.2]
       exact angle_of_acos_range _
 
-/-- … and the minor bodies: when `Minor.geocentric_position` returns, its elongation is in [0°, 180°].
-    (It does NOT always return: the quotient under `acos` uses the first-pass distance with the second-pass
-    vector and can leave [−1, 1]; the model keeps the `ValueError` of the code, see findings.d/C09.json.) -/
+/-- … and the minor bodies: when `Minor.geocentric_position` returns, its elongation is in [0°, 180°]. -/
 theorem minor_elongation_range (body : MinorBody) (jde ra dec psi : ℝ)
     (h : minor_geocentric_position body jde = .ok (ra, dec, psi)) : 0 ≤ psi ∧ psi ≤ 180 := by
   unfold minor_geocentric_position at h
@@ -78,6 +76,32 @@ theorem minor_elongation_range (body : MinorBody) (jde ra dec psi : ℝ)
         simp only [Except.ok.injEq, Prod.mk.injEq] at h
         rw [← h.2.2]
         exact angle_of_acos_range _
+
+/-- The argument of `acos` in the elongation of a minor body is the cosine of the angle between the
+    (light-time corrected) geocentric vector of the body and the Sun's vector, both divided by their OWN
+    norms (since the repair that recomputes `delta` after the second pass): by Cauchy–Schwarz it lies in
+    [−1, 1], so the `ValueError` branch of `acos` cannot be taken. -/
+theorem minor_elongation_argument (xi eta zeta xs ys zs : ℝ) :
+    -1 ≤ (xi * xs + eta * ys + zeta * zs) /
+        (psqrt (xs * xs + ys * ys + zs * zs) * psqrt (xi * xi + eta * eta + zeta * zeta)) ∧
+    (xi * xs + eta * ys + zeta * zs) /
+        (psqrt (xs * xs + ys * ys + zs * zs) * psqrt (xi * xi + eta * eta + zeta * zeta)) ≤ 1 := by
+  unfold psqrt
+  set a := xs * xs + ys * ys + zs * zs with ha
+  set b := xi * xi + eta * eta + zeta * zeta with hb
+  have ha0 : 0 ≤ a := by rw [ha]; nlinarith [mul_self_nonneg xs, mul_self_nonneg ys, mul_self_nonneg zs]
+  have hb0 : 0 ≤ b := by rw [hb]; nlinarith [mul_self_nonneg xi, mul_self_nonneg eta, mul_self_nonneg zeta]
+  have cs : (xi * xs + eta * ys + zeta * zs) ^ 2 ≤ a * b := by
+    rw [ha, hb]
+    nlinarith [sq_nonneg (xi * ys - eta * xs), sq_nonneg (xi * zs - zeta * xs), sq_nonneg (eta * zs - zeta * ys)]
+  have hprod : Real.sqrt a * Real.sqrt b = Real.sqrt (a * b) := (Real.sqrt_mul ha0 b).symm
+  have habs : |xi * xs + eta * ys + zeta * zs| ≤ Real.sqrt a * Real.sqrt b := by
+    rw [hprod]; exact Real.abs_le_sqrt cs
+  have hd0 : 0 ≤ Real.sqrt a * Real.sqrt b := mul_nonneg (Real.sqrt_nonneg _) (Real.sqrt_nonneg _)
+  have : |(xi * xs + eta * ys + zeta * zs) / (Real.sqrt a * Real.sqrt b)| ≤ 1 := by
+    rw [abs_div, abs_of_nonneg hd0]
+    exact div_le_one_of_le₀ habs hd0
+  exact abs_le.mp this
 
 /-! ## Pluto: "Pluto (1885-2099)" -/
 
@@ -174,11 +198,11 @@ theorem regime_partition (e : ℝ) (h0 : 0 ≤ e) (h1 : e ≤ 1) :
 
 /-- The orbit computation of `Minor.geocentric_position` takes exactly the branch of the regime of the
     body's eccentricity: Kepler's equation, Barker's cubic, or the near-parabolic series. -/
-theorem minor_orbit_by_regime (body : MinorBody) (t_peri dt0 : ℝ) :
-    minor_orbit body t_peri dt0 =
+theorem minor_orbit_by_regime (body : MinorBody) (t_peri : ℝ) :
+    minor_orbit body t_peri =
       match regimeOf body.e with
       | .elliptic => minor_elliptic body t_peri
-      | .parabolic => minor_parabolic body dt0
+      | .parabolic => minor_parabolic body t_peri
       | .nearParabolic => near_parabolic body t_peri := by
   have e1 : (1.0 : ℝ) = 1 := by norm_num
   unfold minor_orbit regimeOf
@@ -192,15 +216,15 @@ theorem minor_orbit_by_regime (body : MinorBody) (t_peri dt0 : ℝ) :
 /-- "both light-time passes use the same regime", and the light-time structure of
     `Minor.geocentric_position`: first pass at `epoch − T`, second pass at `epoch − T − 0.0057755183·Δ` with `Δ`
     the first-pass geocentric distance, the Sun's vector at `epoch` in both; the two passes call the SAME
-    `minor_orbit body` (the regime depends on `body.e` only).  As coded, the parabolic branch receives the
-    uncorrected `epoch − T` in both passes (`dt0`): its second pass is not light-time corrected. -/
+    `minor_orbit body` (the regime depends on `body.e` only), each with the time from perihelion of its pass
+    (also in the parabolic branch, since the repair of its second pass). -/
 theorem minor_light_time_structure (body : MinorBody) (jde : ℝ) (v1 rr1 : ℝ) (s : ℝ × ℝ × ℝ)
-    (h1 : minor_orbit body (jde - body.t) (jde - body.t) = .ok (v1, rr1))
+    (h1 : minor_orbit body (jde - body.t) = .ok (v1, rr1))
     (hs : rectangular_coordinates_j2000 jde = .ok s) :
     ∃ delta : ℝ,
       delta = Real.sqrt (((minor_xyz body v1 rr1).1 + s.1) ^ 2 + ((minor_xyz body v1 rr1).2.1 + s.2.1) ^ 2
         + ((minor_xyz body v1 rr1).2.2 + s.2.2) ^ 2) ∧
-      ∀ v2 rr2, minor_orbit body (jde - body.t - 0.0057755183 * delta) (jde - body.t) = .ok (v2, rr2) →
+      ∀ v2 rr2, minor_orbit body (jde - body.t - 0.0057755183 * delta) = .ok (v2, rr2) →
         ∀ out, minor_geocentric_position body jde = .ok out →
           out.1 = angOfRad (patan2 ((minor_xyz body v2 rr2).2.1 + s.2.1) ((minor_xyz body v2 rr2).1 + s.1)) := by
   refine ⟨_, rfl, ?_⟩
